@@ -90,6 +90,15 @@ def run (c : Cfg) (counter : Nat) : List In → List Out
   | [] => []
   | i :: is => (step c counter i.m i.sampledOut i.pick i.resp).2 ++ run c (step c counter i.m i.sampledOut i.pick i.resp).1 is
 
+/-- the tool as shipped: go-nsq `handlerLoop` first applies `shouldFailMessage`
+(`MaxAttempts > 0 && Attempts > MaxAttempts` → `Finish()` without calling the handler; main() uses the
+default max_attempts = 5) -/
+def shouldFail (maxAttempts attempts : Nat) : Bool := decide (maxAttempts > 0) && decide (attempts > maxAttempts)
+
+def consume (c : Cfg) (maxAttempts attempts : Nat) (counter : Nat) (m : Msg) (sampledOut : Bool) (pick : Nat)
+    (resp : Nat → Option Nat) : Nat × List Out :=
+  if shouldFail maxAttempts attempts then (counter, [Out.fin m.id]) else step c counter m sampledOut pick resp
+
 end Http
 
 namespace N2N
